@@ -1,6 +1,7 @@
 package rules
 
 import (
+	"fmt"
 	"path/filepath"
 	"strings"
 
@@ -284,7 +285,21 @@ func runC15(c *Ctx) {
 				cw = true
 			}
 		}
-		c.Ob("R15.5", "VirtualService/trafficRouting.lua#canary-weight", 0, cw, "the generated canary destination carries canaryWeight", ifs(!cw, "no `weight = canaryWeight` in the generated destination"))
+		// … and nothing else writes a weight: the only other weight assignment is the re-scaling of the
+		// existing destinations (route.weight = CalculateWeight(…)); a later `canary.weight = …` would
+		// replace the step's share
+		other := ""
+		for _, a := range sc.Assigns {
+			if a.Key != "weight" {
+				continue
+			}
+			rhs := strings.ReplaceAll(a.Rhs, " ", "")
+			if rhs == "canaryWeight" || strings.HasPrefix(rhs, "CalculateWeight(") {
+				continue
+			}
+			other = fmt.Sprintf("%s.weight = %s (line %d)", a.Table, a.Rhs, a.Line)
+		}
+		c.Ob("R15.5", "VirtualService/trafficRouting.lua#canary-weight", 0, cw && other == "", "the generated canary destination carries canaryWeight", ifs(!cw, "no `weight = canaryWeight` in the generated destination")+ifs(other != "", "a weight is also assigned as "+other+": the canary share written to the VirtualService is then not the step's value (the provider verifies against the script's own output, so the step is still reported as routed)"))
 	}
 }
 
